@@ -531,6 +531,8 @@ func (a Action) String() string {
 		add("node=%s %v", a.Node, a.Flag)
 	case "relabel":
 		add("node=%s %s=%q drop=%v", a.Node, a.Key, a.Val, a.Flag)
+	case "fracAlloc":
+		add("node=%s memory=%s", a.Node, a.Val)
 	case "annotate":
 		add("node=%s val=%q remove=%v", a.Node, a.Val, a.Flag)
 	case "asgEdit":
@@ -867,6 +869,18 @@ func (w *World) Apply(a Action) (rec *ScanRecord, ok bool) {
 				w.A.BumpAfterDescribe = map[string]int64{}
 			}
 			w.A.BumpAfterDescribe[g.Name] = int64(a.N)
+		} else {
+			ok = false
+		}
+	case "fracAlloc": // the node reports allocatable memory as a fractional binary-SI quantity (7.5Gi, 15.5Gi ...)
+		if n := w.K.Nodes[a.Node]; n != nil {
+			if n.Status.Allocatable == nil {
+				n.Status.Allocatable = v1.ResourceList{}
+			}
+			n.Status.Allocatable[v1.ResourceMemory] = resource.MustParse(a.Val)
+			if n.Status.Capacity != nil {
+				n.Status.Capacity[v1.ResourceMemory] = resource.MustParse(a.Val)
+			}
 		} else {
 			ok = false
 		}
